@@ -6,6 +6,7 @@ use std::path::Path;
 use std::time::Instant;
 
 pub mod c01;
+pub mod c02;
 pub mod c03;
 pub mod c04;
 pub mod c05;
@@ -29,6 +30,7 @@ type ReplayFn = fn(&Value) -> Outcome;
 
 const TABLE: &[(&str, RunFn, ReplayFn)] = &[
     ("C01", c01::run, c01::replay),
+    ("C02", c02::run, c02::replay),
     ("C03", c03::run, c03::replay),
     ("C04", c04::run, c04::replay),
     ("C05", c05::run, c05::replay),
